@@ -196,7 +196,13 @@ def classify_unit(case, out):
 
 ENGINES.append({"name": "bstream", "gen": gen_unit, "corpus": corpus_unit, "nontrivial": nontrivial_unit, "classify": classify_unit, "shards": 12})
 RULE = RULE + "; " + UNIT_RULE
-TRUSTED_BASE = TRUSTED_BASE + [
+
+# bgp-tcp-in unit part: connection_lost_count / disconnect_count of the unit's status reporter (src/units/bgp_tcp_in/status_reporter.rs,
+# metrics.rs) on the real Processor::process loop, against BgpSessionModel.bsm_process (theorems C15_bgp_*): engine `bgpend`, C15 profile
+from props import bgpend_common  # noqa: E402
+ENGINES.append(bgpend_common.bgpend_c15_engine())
+RULE = RULE + "; " + bgpend_common.BGPEND_C15_RULE
+TRUSTED_BASE = TRUSTED_BASE + [bgpend_common.BGPEND_C15_TRUSTED] + [
     "Rust harness engine `bstream` (see C06/C07): the real RouterHandler::read_from_router over a scripted reader; the unit level counters are "
     "read from the text StreamFixture::metrics_prometheus renders (both metric sources of the unit through the real Target, as /metrics does), "
     "after GET /routers/ and GET /routers/<id> through the real request processors",
@@ -205,7 +211,12 @@ TRUSTED_BASE = TRUSTED_BASE + [
     "no label twice, no series twice); the reader itself is exercised on a corpus of well-formed and malformed texts on every run (extra c15-promtext)",
     "OCaml driver oracle/eng_bstream.ml: prints the counters of BmpStreamModel.run_from_m / conn_at; its parser argument is the parse table of the case",
 ]
-ASSUMPTIONS = ASSUMPTIONS + [
+ASSUMPTIONS = ASSUMPTIONS + bgpend_common.BGPEND_ASSUMPTIONS[:2] + [
+    "bgp-tcp-in unit counters: session.connected_addr() is Some whenever the loop handles Terminate or a de-configuration (the scripted session "
+    "always is connected; routecore's session keeps the address until the FSM lets go of the connection, after which the loop only drains the "
+    "channel); listener_bound_count and connection_accepted_count belong to the accept loop of unit.rs and are not touched by a session; "
+    "established_session_count is never written by the code",
+] + [
     "unit level counters: routecore's Message::from_octets accepts no frame whose type octet is above 6 (BmpStreamModel.parse_types_ok; "
     "C15_unit_counters_index_needs_parser_guarantee shows the index panic without it; run on frames of type 7..255 on every check); no roto filter is "
     "configured (every accepted message is handed to the state machine); the router id does not change during a session (format_source_id ignores "
@@ -296,5 +307,5 @@ LEVEL_NOTE = ("Trusted: Coq kernel, extraction + OCaml driver, Rust harness and 
               "per-router series parse back exactly (C15_unit_counters_labels_parse, with C19_metrics_labels_safe). NOT modelled: the text writer "
               "(Target::append*) beyond its label sets - the text is checked per run by the independent reader, not proved well-formed; the strict text "
               "format (one HELP/TYPE per name) is departed from: known finding C15-5; the roto-filter branch of process_msg (a Reject would make "
-              "received > processed); BGP unit and RIB unit metrics. See DESIGN.md, design-notes/C15.md and design-notes/E2E.md.")
+              "received > processed); RIB unit metrics; of the BGP unit: the accept loop's counters (listener bound, connections accepted) - the session's counters (connection lost, disconnects) ARE modelled: BgpSessionModel.bsm_process, theorems C15_bgp_*, engine bgpend op M. See DESIGN.md, design-notes/C15.md and design-notes/E2E.md.")
 TECHNIQUE = "Coq proof by invariant over message histories + model/implementation correspondence on rendered metrics"
